@@ -1,45 +1,144 @@
 import RedoModel.RunTok
 import RedoModel.Lemmas.RunLoopInv
-/-! Helper lemmas for Props/C09e: the invariant of the product of `RunLoop` and `TokLoop`. -/
+/-! Helper lemmas for Props/C09 and Props/C09e: the invariant of the token counter (`TokLoop.Backed`) and the invariant
+of the product of `RunLoop` and `TokLoop`. -/
 set_option linter.unusedSimpArgs false
 namespace RedoModel.RunTok
 open RedoModel RedoModel.RunLoop RedoModel.TokLoop
 
 /-! ## The counter alone -/
 
-theorem lstep_start_of_one {t : LS} (h : t.my = 1) :
-    lstep true t .start = .ok { t with my := 0, running := t.running + 1 } := by
-  simp [lstep, h]
-
-theorem lstep_releaseMine_of_one {t : LS} (h : t.my = 1) :
-    lstep true t .releaseMine = .ok (release t 1) := by
-  simp [lstep, h]
-
 theorem release_running (t : LS) (n : Nat) : (release t n).running = t.running := rfl
+
+theorem release_exited (t : LS) (n : Nat) : (release t n).exited = t.exited := rfl
 
 theorem keepOne_running (t : LS) : (keepOne t).running = t.running := by
   unfold keepOne; split <;> rfl
 
-theorem keepOne_my_le (t : LS) : (keepOne t).my ≤ 1 ∨ (keepOne t).my = t.my ∧ t.my = 0 := by
-  unfold keepOne; split
-  · left; simp [release]; omega
-  · right; omega
+theorem keepOne_exited (t : LS) : (keepOne t).exited = t.exited := by
+  unfold keepOne; split <;> rfl
 
 theorem keepOne_my (t : LS) : (keepOne t).my = min t.my 1 := by
   unfold keepOne; split
   · simp [release]; omega
   · omega
 
-theorem lstep_waitAll (t : LS) : ∃ t', lstep true t .waitAll = .ok t' ∧ t'.my ≤ 1 ∧ t'.running = t.running := by
-  simp only [lstep]
+theorem keepOne_cheats (t : LS) : (keepOne t).cheats = t.cheats - min t.cheats (t.my - 1) := by
+  unfold keepOne; split
+  · simp [release]
+  · omega
+
+theorem keepOne_my_le (t : LS) : (keepOne t).my ≤ 1 ∨ (keepOne t).my = t.my ∧ t.my = 0 := by
+  rw [keepOne_my]; omega
+
+/-- `create_tokens n`: the first `min cheats n` new tokens cancel cheats, the others are added. -/
+theorem createN_spec (s : LS) (n : Nat) :
+    (createN s n).cheats = s.cheats - min s.cheats n ∧ (createN s n).my = s.my + (n - min s.cheats n) ∧
+    (createN s n).running = s.running ∧ (createN s n).exited = s.exited := by
+  induction n with
+  | zero => simp [createN]
+  | succ n ih =>
+    obtain ⟨h1, h2, h3, h4⟩ := ih
+    simp only [createN]
+    split <;> simp_all <;> omega
+
+/-- A step is taken (or an assertion fails) only before the exit. -/
+theorem lstepG_live {fr fe : Bool} {t : LS} {e : LEv} (h : lstepG fr fe t e ≠ .disabled) : t.exited = false := by
+  cases hx : t.exited with
+  | false => rfl
+  | true => simp [lstepG, hx] at h
+
+theorem lstep_live {fr : Bool} {t t' : LS} {e : LEv} (h : lstep fr t e = .ok t') : t.exited = false :=
+  lstepG_live (fr := fr) (fe := true) (e := e) (by show lstep fr t e ≠ _; rw [h]; intro h'; cases h')
+
+theorem lstep_panic_live {fr : Bool} {t : LS} {e : LEv} (h : lstep fr t e = .panic) : t.exited = false :=
+  lstepG_live (fr := fr) (fe := true) (e := e) (by show lstep fr t e ≠ _; rw [h]; intro h'; cases h')
+
+/-- After the exit every step is disabled. -/
+theorem lstep_exited {fr : Bool} {t : LS} (e : LEv) (h : t.exited = true) : lstep fr t e = .disabled := by
+  simp [lstep, lstepG, h]
+
+theorem lstep_start_of_one {t : LS} (hx : t.exited = false) (h : t.my = 1) :
+    lstep true t .start = .ok { t with my := 0, running := t.running + 1 } := by
+  simp [lstep, lstepG, hx, h]
+
+theorem lstep_releaseMine_of_one {t : LS} (hx : t.exited = false) (h : t.my = 1) :
+    lstep true t .releaseMine = .ok (release t 1) := by
+  simp [lstep, lstepG, hx, h]
+
+theorem lstep_waitAll (t : LS) (hx : t.exited = false) :
+    ∃ t', lstep true t .waitAll = .ok t' ∧ t'.my ≤ 1 ∧ t'.running = t.running := by
+  simp only [lstep, lstepG, hx, Bool.false_eq_true, ↓reduceIte]
   split
   · exact ⟨_, rfl, by simp [release, keepOne_my]; omega, by simp [release_running, keepOne_running]⟩
   · exact ⟨_, rfl, by simp [keepOne_my]; omega, keepOne_running t⟩
 
-/-- The only assertion that can fail is the one of `start`, and only with two tokens or more. -/
-theorem lstep_panic {t : LS} {e : LEv} (h : lstep true t e = .panic) : 2 ≤ t.my := by
-  cases e <;> simp only [lstep] at h
+/-- `Backed` — at most one token, at most one cheat, the cheat backed by the token in hand or by a running child — is
+kept by every step of the repaired loop. -/
+theorem lstep_backed {t t' : LS} {e : LEv} (hb : Backed t) (h : lstep true t e = .ok t') : Backed t' := by
+  have hx := lstep_live h
+  obtain ⟨b1, b2, b3⟩ := hb
+  obtain ⟨c1, c2, c3, c4⟩ := createN_spec t t.running
+  unfold Backed
+  cases e <;> simp only [lstep, lstepG, hx, Bool.false_eq_true, ↓reduceIte] at h
+  · -- childExit
+    split at h
+    · cases h
+    · cases h
+      split <;> simp [keepOne_my, keepOne_cheats, keepOne_running] <;> omega
+  · -- childExitEat
+    split at h
+    · cases h
+    · split at h
+      · cases h
+      · cases h
+        rename_i hc
+        simp at hc
+        simp; omega
+  · -- tokenRead
+    split at h
+    · cases h
+    · cases h
+      rename_i hc
+      simp at hc
+      simp; omega
+  · -- cheat
+    split at h
+    · cases h; simp; omega
+    · cases h
+  · -- start
+    split at h
+    · cases h
+    · split at h
+      · cases h
+      · cases h; simp; omega
+  · -- releaseMine
+    split at h
+    · cases h
+    · cases h; simp [release]; omega
+  · -- waitAll
+    split at h <;> cases h <;> simp [release, keepOne_my, keepOne_cheats, keepOne_running] <;> omega
+  · -- exit
+    split at h
+    · cases h
+    · split at h
+      · cases h
+      · cases h
+        simp [keepOne_my, keepOne_cheats, keepOne_running, c1, c2, c3]
+        omega
+
+/-- From a `Backed` state no assertion fails: neither the one of `start` (`my = 1`) nor the two of
+`do_force_return_tokens` (`cheats ≤ my`, `cheats ≤ 1`). -/
+theorem lstep_no_panic {t : LS} {e : LEv} (hb : Backed t) : lstep true t e ≠ .panic := by
+  intro h
+  have hx := lstep_panic_live h
+  obtain ⟨b1, b2, b3⟩ := hb
+  obtain ⟨c1, c2, c3, c4⟩ := createN_spec t t.running
+  cases e <;> simp only [lstep, lstepG, hx, Bool.false_eq_true, ↓reduceIte] at h
   · split at h <;> cases h
+  · split at h
+    · cases h
+    · split at h <;> cases h
   · split at h <;> cases h
   · split at h <;> cases h
   · split at h
@@ -49,11 +148,63 @@ theorem lstep_panic {t : LS} {e : LEv} (h : lstep true t e = .panic) : 2 ≤ t.m
       · cases h
   · split at h <;> cases h
   · split at h <;> cases h
+  · split at h
+    · rename_i hc
+      simp [keepOne_my, keepOne_cheats, c1, c2] at hc
+      omega
+    · split at h
+      · rename_i hc
+        simp [keepOne_my, keepOne_cheats, c1, c2] at hc
+        omega
+      · cases h
 
-/-- `start` and `release_mine` are "disabled" exactly without a token; one poll of `wait_all` is always possible. -/
-theorem lstep_disabled_driven {t : LS} {e : LEv} (he : e = .start ∨ e = .releaseMine ∨ e = .waitAll)
-    (h : lstep true t e = .disabled) : t.my = 0 := by
-  rcases he with rfl | rfl | rfl <;> simp only [lstep] at h
+/-- The exit from a `Backed` state: it happens (before the first exit), leaves at most one token and never more cheats
+than tokens, and a token in hand stays in hand. -/
+theorem lstep_exit {t : LS} (hb : Backed t) (hx : t.exited = false) :
+    ∃ t', lstep true t .exit = .ok t' ∧ t'.cheats ≤ t'.my ∧ t'.my ≤ 1 ∧ t'.exited = true ∧
+      t'.running = t.running ∧ (t.my = 1 → t'.my = 1) := by
+  obtain ⟨b1, b2, b3⟩ := hb
+  obtain ⟨c1, c2, c3, c4⟩ := createN_spec t t.running
+  simp only [lstep, lstepG, hx, Bool.false_eq_true, ↓reduceIte]
+  split
+  · rename_i hc
+    simp [keepOne_my, keepOne_cheats, c1, c2] at hc
+    omega
+  · split
+    · rename_i hc
+      simp [keepOne_my, keepOne_cheats, c1, c2] at hc
+      omega
+    · rename_i h1 h2
+      refine ⟨_, rfl, ?_, ?_, rfl, ?_, ?_⟩
+      · simp only; omega
+      · simp [keepOne_my]; omega
+      · simp [keepOne_running, c3]
+      · simp [keepOne_my, c2]; omega
+
+/-- Only the exit sets `exited`. -/
+theorem lstep_not_exited {t t' : LS} {e : LEv} (he : e ≠ .exit) (h : lstep true t e = .ok t') : t'.exited = false := by
+  have hx := lstep_live h
+  cases e <;> simp only [lstep, lstepG, hx, Bool.false_eq_true, ↓reduceIte] at h
+  · split at h
+    · cases h
+    · cases h; rw [keepOne_exited]; split <;> first | rfl | exact hx
+  · split at h
+    · cases h
+    · split at h <;> cases h; first | rfl | exact hx
+  · split at h <;> cases h; first | rfl | exact hx
+  · split at h <;> cases h; first | rfl | exact hx
+  · split at h
+    · cases h
+    · split at h <;> cases h; first | rfl | exact hx
+  · split at h <;> cases h; first | rfl | exact hx
+  · split at h <;> cases h <;> simp [release_exited, keepOne_exited, hx]
+  · exact absurd rfl he
+
+/-- `start` and `release_mine` are "disabled" exactly without a token (before the exit); one poll of `wait_all` is
+always possible. -/
+theorem lstep_disabled_driven {t : LS} {e : LEv} (hx : t.exited = false)
+    (he : e = .start ∨ e = .releaseMine ∨ e = .waitAll) (h : lstep true t e = .disabled) : t.my = 0 := by
+  rcases he with rfl | rfl | rfl <;> simp only [lstep, lstepG, hx, Bool.false_eq_true, ↓reduceIte] at h
   · split at h
     · assumption
     · split at h <;> cases h
@@ -63,64 +214,53 @@ theorem lstep_disabled_driven {t : LS} {e : LEv} (he : e = .start ∨ e = .relea
   · split at h <;> cases h
 
 /-- Every counter step keeps "at most one token". -/
-theorem lstep_my_le {t t' : LS} {e : LEv} (h : t.my ≤ 1) (hs : lstep true t e = .ok t') : t'.my ≤ 1 := by
-  cases e <;> simp only [lstep] at hs
-  · split at hs
-    · cases hs
-    · cases hs; split <;> simp [keepOne_my] <;> omega
-  · split at hs
-    · cases hs
-    · cases hs
-      rename_i hc
-      simp at hc
-      simp; omega
-  · split at hs
-    · cases hs; simp
-    · cases hs
-  · split at hs
-    · cases hs
-    · split at hs
-      · cases hs
-      · cases hs; simp
-  · split at hs
-    · cases hs
-    · cases hs; simp [release]; omega
-  · obtain ⟨t'', h1, h2, _⟩ := lstep_waitAll t
-    simp only [lstep] at h1
-    rw [h1] at hs; cases hs; exact h2
+theorem lstep_my_le {t t' : LS} {e : LEv} (h : Backed t) (hs : lstep true t e = .ok t') : t'.my ≤ 1 :=
+  (lstep_backed h hs).1
 
 /-- The steps of the event loop never take the process's one token away. -/
-theorem lstep_env_keeps_one {t t' : LS} {e : LEv} (he : e = .childExit ∨ e = .tokenRead ∨ e = .cheat)
+theorem lstep_env_keeps_one {t t' : LS} {e : LEv}
+    (he : e = .childExit ∨ e = .childExitEat ∨ e = .tokenRead ∨ e = .cheat)
     (h : t.my = 1) (hs : lstep true t e = .ok t') : t'.my = 1 := by
-  rcases he with rfl | rfl | rfl <;> simp only [lstep] at hs
+  have hx := lstep_live hs
+  rcases he with rfl | rfl | rfl | rfl <;> simp only [lstep, lstepG, hx, Bool.false_eq_true, ↓reduceIte] at hs
   · split at hs
     · cases hs
     · cases hs; split <;> simp [keepOne_my] <;> omega
+  · split at hs
+    · cases hs
+    · split at hs <;> cases hs; exact h
   · simp [h] at hs
   · simp [h] at hs
 
 def runningDelta : LEv → Int
   | .childExit => -1
+  | .childExitEat => -1
   | .start => 1
   | _ => 0
 
 theorem lstep_running {t t' : LS} {e : LEv} (hs : lstep true t e = .ok t') :
     (t'.running : Int) = t.running + runningDelta e := by
-  cases e <;> simp only [lstep] at hs
+  have hx := lstep_live hs
+  obtain ⟨c1, c2, c3, c4⟩ := createN_spec t t.running
+  cases e <;> simp only [lstep, lstepG, hx, Bool.false_eq_true, ↓reduceIte] at hs
   · split at hs
     · cases hs
     · cases hs
       rw [keepOne_running]
       split <;> simp [runningDelta] <;> omega
+  · split at hs
+    · cases hs
+    · split at hs <;> cases hs; simp [runningDelta]; omega
   · split at hs <;> cases hs; simp [runningDelta]
   · split at hs <;> cases hs; simp [runningDelta]
   · split at hs
     · cases hs
     · split at hs <;> cases hs; simp [runningDelta]
   · split at hs <;> cases hs; simp [runningDelta, release_running]
-  · obtain ⟨t'', h1, _, h3⟩ := lstep_waitAll t
-    simp only [lstep] at h1
-    rw [h1] at hs; cases hs; simp [runningDelta, h3]
+  · split at hs <;> cases hs <;> simp [runningDelta, release_running, keepOne_running]
+  · split at hs
+    · cases hs
+    · split at hs <;> cases hs; simp [runningDelta, keepOne_running, c3]
 
 /-! ## The control flow alone: what each event does to `tokHeld` -/
 
@@ -151,16 +291,30 @@ theorem step_other_held {c : Cfg} {s s' : St} {ev : Ev} (h : step c s ev = .ok s
     s'.tokHeld = s.tokHeld := by
   cases step_Step h <;> simp_all [touchesToken, poll]
 
+/-- `step` answers `.error` once `run` has returned. -/
+theorem step_not_ended {c : Cfg} {s s' : St} {ev : Ev} (h : step c s ev = .ok s') (ok : Bool) : s.pc ≠ .ended ok := by
+  intro hp
+  unfold step at h
+  rw [hp] at h
+  cases h
+
+theorem step_fin_ended {c : Cfg} {s s' : St} {ok : Bool} (h : step c s (.fin ok) = .ok s') : s'.pc = .ended ok := by
+  cases step_Step h <;> rfl
+
 /-! ## The invariant of the product -/
 
-/-- The control-flow invariant, "at most one token", and: whenever the control flow believes it has a token in hand
-(`tokHeld`), the counter says so (`my = 1`). -/
+/-- The control-flow invariant, "at most one token", whenever the control flow believes it has a token in hand
+(`tokHeld`) the counter says so (`my = 1`), every cheat is backed, and the counter has exited only when `run` has
+returned. -/
 structure PInv (s : PSt) : Prop where
   ctl : Inv1 s.ctl
   le : s.tok.my ≤ 1
   hand : s.ctl.tokHeld = true → s.tok.my = 1
+  backed : Backed s.tok
+  live : s.tok.exited = true → ∃ ok, s.ctl.pc = .ended ok
 
-theorem PInv.init : PInv {} := ⟨Inv1.init, by decide, by intro h; cases h⟩
+theorem PInv.init : PInv {} :=
+  ⟨Inv1.init, by decide, (by intro h; cases h), (by simp [Backed]), (by intro h; cases h)⟩
 
 /-- Result of one product step from a state that satisfies the invariant: never `stuck`, never `panic`, and the
 invariant is kept. -/
@@ -170,48 +324,63 @@ def Good : PRes → Prop
   | .stuck => False
   | .panic => False
 
-theorem driven_good {s : PSt} {ctl' : St} {e : LEv} (hi : PInv s) (hc : Inv1 ctl')
+theorem driven_good {s : PSt} {ctl' : St} {e : LEv} (hi : PInv s) (hx : s.tok.exited = false) (hc : Inv1 ctl')
     (hheld : ctl'.tokHeld = false) (he : e = .start ∨ e = .releaseMine ∨ e = .waitAll)
     (hone : e = .waitAll ∨ s.tok.my = 1) : Good (driven s ctl' e) := by
   unfold driven
   cases hl : lstep true s.tok e with
   | ok t =>
-    exact ⟨hc, lstep_my_le hi.le hl, by simp [hheld]⟩
+    have hne : e ≠ .exit := by rcases he with rfl | rfl | rfl <;> intro h <;> cases h
+    have hx' := lstep_not_exited hne hl
+    exact ⟨hc, lstep_my_le hi.backed hl, by simp [hheld], lstep_backed hi.backed hl, by simp [hx']⟩
   | disabled =>
-    have h0 := lstep_disabled_driven he hl
+    have h0 := lstep_disabled_driven hx he hl
     rcases hone with rfl | h1
-    · obtain ⟨t', h1, _⟩ := lstep_waitAll s.tok
+    · obtain ⟨t', h1, _⟩ := lstep_waitAll s.tok hx
       rw [h1] at hl; cases hl
     · omega
-  | panic =>
-    have := lstep_panic hl
-    have := hi.le
-    omega
+  | panic => exact absurd hl (lstep_no_panic hi.backed)
 
-theorem env_good {s : PSt} {e : LEv} (hi : PInv s) (he : e = .childExit ∨ e = .tokenRead ∨ e = .cheat) :
-    Good (env s e) := by
+/-- `do_force_return_tokens` when `run` returns. -/
+theorem driven_exit_good {s : PSt} {ctl' : St} {ok : Bool} (hi : PInv s) (hx : s.tok.exited = false) (hc : Inv1 ctl')
+    (hheld : ctl'.tokHeld = s.ctl.tokHeld) (hpc : ctl'.pc = .ended ok) : Good (driven s ctl' .exit) := by
+  obtain ⟨t', h1, _, h3, _, _, h6⟩ := lstep_exit hi.backed hx
+  unfold driven
+  rw [h1]
+  exact ⟨hc, h3, fun h => h6 (hi.hand (by rw [← hheld]; exact h)), lstep_backed hi.backed h1, fun _ => ⟨ok, hpc⟩⟩
+
+theorem env_good {s : PSt} {e : LEv} (hi : PInv s)
+    (he : e = .childExit ∨ e = .childExitEat ∨ e = .tokenRead ∨ e = .cheat) : Good (env s e) := by
   unfold env
   cases hl : lstep true s.tok e with
-  | ok t => exact ⟨hi.ctl, lstep_my_le hi.le hl, fun h => lstep_env_keeps_one he (hi.hand h) hl⟩
+  | ok t =>
+    have hne : e ≠ .exit := by rcases he with rfl | rfl | rfl | rfl <;> intro h <;> cases h
+    have hx' := lstep_not_exited hne hl
+    exact ⟨hi.ctl, lstep_my_le hi.backed hl, fun h => lstep_env_keeps_one he (hi.hand h) hl,
+      lstep_backed hi.backed hl, by simp [hx']⟩
   | disabled => trivial
-  | panic =>
-    have := lstep_panic hl
-    have := hi.le
-    omega
+  | panic => exact absurd hl (lstep_no_panic hi.backed)
 
 theorem pstep_good {c : Cfg} {s : PSt} (hi : PInv s) (ev : PEv) : Good (pstep c s ev) := by
   cases ev with
   | childExit => exact env_good hi (.inl rfl)
-  | tokenRead => exact env_good hi (.inr (.inl rfl))
-  | cheat => exact env_good hi (.inr (.inr rfl))
+  | childExitEat => exact env_good hi (.inr (.inl rfl))
+  | tokenRead => exact env_good hi (.inr (.inr (.inl rfl)))
+  | cheat => exact env_good hi (.inr (.inr (.inr rfl)))
   | ctl e =>
     simp only [pstep, pstepG]
     cases hs : step c s.ctl e with
     | error r => trivial
     | ok ctl' =>
       have hc : Inv1 ctl' := Inv1.step hs hi.ctl
+      have hx : s.tok.exited = false := by
+        cases hx : s.tok.exited with
+        | false => rfl
+        | true =>
+          obtain ⟨ok, hp⟩ := hi.live hx
+          exact absurd hp (step_not_ended hs ok)
       have keep : touchesToken e = false → Good (.ok { ctl := ctl', tok := s.tok }) := fun hu =>
-        ⟨hc, hi.le, fun h => hi.hand (by rw [← step_other_held hs hu]; exact h)⟩
+        ⟨hc, hi.le, fun h => hi.hand (by rw [← step_other_held hs hu]; exact h), hi.backed, by simp [hx]⟩
       cases e with
       | tok =>
         simp only [Bool.true_and]
@@ -222,15 +391,17 @@ theorem pstep_good {c : Cfg} {s : PSt} (hi : PInv s) (ev : PEv) : Good (pstep c 
             have := hi.le
             simp at h0
             omega
-          exact ⟨hc, hi.le, fun _ => h1⟩
+          exact ⟨hc, hi.le, fun _ => h1, hi.backed, by simp [hx]⟩
       | forked f =>
         obtain ⟨hn, hh⟩ := step_usesToken hs rfl
-        exact driven_good hi hc hh (.inl rfl) (.inr (hi.hand (hi.ctl.tok hn)))
+        exact driven_good hi hx hc hh (.inl rfl) (.inr (hi.hand (hi.ctl.tok hn)))
       | releaseMine =>
         obtain ⟨hn, hh⟩ := step_usesToken hs rfl
-        exact driven_good hi hc hh (.inr (.inl rfl)) (.inr (hi.hand (hi.ctl.tok hn)))
+        exact driven_good hi hx hc hh (.inr (.inl rfl)) (.inr (hi.hand (hi.ctl.tok hn)))
       | waitAll =>
-        exact driven_good hi hc (step_waitAll_held hs) (.inr (.inr rfl)) (.inl rfl)
+        exact driven_good hi hx hc (step_waitAll_held hs) (.inr (.inr rfl)) (.inl rfl)
+      | fin ok =>
+        exact driven_exit_good hi hx hc (step_other_held hs rfl) (step_fin_ended hs)
       | _ => exact keep rfl
 
 theorem prun_good {c : Cfg} {s : PSt} (hi : PInv s) (es : List PEv) : Good (prun c s es) := by
@@ -254,6 +425,7 @@ def isFork : PEv → Bool
 
 def isExit : PEv → Bool
   | .childExit => true
+  | .childExitEat => true
   | _ => false
 
 theorem pstep_running {c : Cfg} {s s' : PSt} {ev : PEv} (h : pstep c s ev = .ok s') :
@@ -274,6 +446,7 @@ theorem pstep_running {c : Cfg} {s s' : PSt} {ev : PEv} (h : pstep c s ev = .ok 
     | panic => rw [hl] at he; cases he
   cases ev with
   | childExit => have := envc _ h; simp [isExit, isFork, runningDelta] at this ⊢; omega
+  | childExitEat => have := envc _ h; simp [isExit, isFork, runningDelta] at this ⊢; omega
   | tokenRead => have := envc _ h; simp [isExit, isFork, runningDelta] at this ⊢; omega
   | cheat => have := envc _ h; simp [isExit, isFork, runningDelta] at this ⊢; omega
   | ctl e =>
@@ -291,6 +464,7 @@ theorem pstep_running {c : Cfg} {s s' : PSt} {ev : PEv} (h : pstep c s ev = .ok 
       | forked f => have := drv _ _ h; simp [isExit, isFork, runningDelta] at this ⊢; omega
       | releaseMine => have := drv _ _ h; simp [isExit, isFork, runningDelta] at this ⊢; omega
       | waitAll => have := drv _ _ h; simp [isExit, isFork, runningDelta] at this ⊢; omega
+      | fin ok => have := drv _ _ h; simp [isExit, isFork, runningDelta] at this ⊢; omega
       | _ => cases h; simp [isExit, isFork]
 
 theorem prun_cons_ok {c : Cfg} {s s' : PSt} {e : PEv} {es : List PEv} (h : prun c s (e :: es) = .ok s') :
@@ -340,6 +514,7 @@ theorem pstep_ctl {c : Cfg} {s s' : PSt} {ev : PEv} (h : pstep c s ev = .ok s') 
     | panic => rw [hl] at he; cases he
   cases ev with
   | childExit => exact envc _ h
+  | childExitEat => exact envc _ h
   | tokenRead => exact envc _ h
   | cheat => exact envc _ h
   | ctl e =>
@@ -358,6 +533,7 @@ theorem pstep_ctl {c : Cfg} {s s' : PSt} {ev : PEv} (h : pstep c s ev = .ok s') 
       | forked f => rw [drv _ _ h]
       | releaseMine => rw [drv _ _ h]
       | waitAll => rw [drv _ _ h]
+      | fin ok => rw [drv _ _ h]
       | _ => cases h; rfl
 
 theorem prun_ctl {c : Cfg} {s s' : PSt} {es : List PEv} (h : prun c s es = .ok s') :
